@@ -1,10 +1,10 @@
 package main
 
 import (
-	"strings"
 	"fmt"
 	"go/token"
 	"sort"
+	"strings"
 
 	"golang.org/x/tools/go/ssa"
 )
@@ -108,7 +108,10 @@ func checkC04(c *Check) {
 
 	// ---- R2
 	wantForm := map[string]func(ssa.Value) (bool, string){
-		"grant_type": func(v ssa.Value) (bool, string) { s, ok := constString(v); return ok && s == "authorization_code", "constant authorization_code" },
+		"grant_type": func(v ssa.Value) (bool, string) {
+			s, ok := constString(v)
+			return ok && s == "authorization_code", "constant authorization_code"
+		},
 		"code": func(v ssa.Value) (bool, string) {
 			return resolveCell(stripConv(v)) == m.CbCodeReq, "the request's code parameter"
 		},
@@ -204,7 +207,9 @@ func checkC04(c *Check) {
 
 	// ---- R3
 	rd := R.Redirect
-	eq := func(v ssa.Value, call *ssa.Call) bool { return call != nil && resolveCell(stripConv(v)) == ssa.Value(call) }
+	eq := func(v ssa.Value, call *ssa.Call) bool {
+		return call != nil && resolveCell(stripConv(v)) == ssa.Value(call)
+	}
 	single := func(vals []ssa.Value) ssa.Value {
 		if len(vals) == 1 {
 			return vals[0]
@@ -382,6 +387,28 @@ func transportPreservesRequest(c *Check, rule string) {
 					switch x := ins.(type) {
 					case ssa.CallInstruction:
 						id := funcID(calleeOf(x).Obj)
+						// the dump function handed to a helper as a function value, together with the request it is applied to
+						for _, a := range x.Common().Args {
+							fv, isFn := stripConv(a).(*ssa.Function)
+							if !isFn || fv.Object() == nil || fv.Object().Pkg() == nil || fv.Object().Pkg().Path() != "net/http/httputil" || !strings.HasPrefix(fv.Name(), "DumpRequest") {
+								continue
+							}
+							nDump++
+							same, nReq := true, 0
+							for _, ra := range x.Common().Args {
+								if typeID(derefType(ra.Type())) != "net/http.Request" {
+									continue
+								}
+								nReq++
+								for _, l := range LeavesInl(ra, leafOpts{}, 2, nil) {
+									if resolveCell(stripConv(l)) != ssa.Value(reqParam) {
+										same = false
+									}
+								}
+							}
+							c.Obl(same && nReq == 1, rule, "dump-is-the-forwarded-request/"+nthCallKey(x), P.Pos(x.Pos()), "the dump function is handed over together with the request that is forwarded",
+								"the request dump is handed to a helper with a request other than the one that is forwarded (or with none): the dump drains the body the forwarded request shares with it")
+						}
 						switch id {
 						case "net/http/httputil.DumpRequest", "net/http/httputil.DumpRequestOut":
 							args := x.Common().Args
